@@ -463,6 +463,10 @@ def check_spec(ctx, env, sp, corr, fakes=True, record=True):
             corr["cases"].append({"spec": sp, "style": style, "what": "stage1"})
             corr["impl"].append(impl_stage1(compiled, style))
             corr["req"].append("bind stage1 " + head)
+            if style in ("qmark", "numeric"):
+                pre_s = getattr(compiled, "_verif_pre", None)
+                if pre_s is not None:
+                    corr["guard"].append("bind safe %s %s" % ("both" if style == "qmark" else "a", E(pre_s)))
             if not many and len(caps) == 1 and pv is not None:
                 corr["cases"].append({"spec": sp, "style": style, "what": "run"})
                 corr["impl"].append(impl_run(caps[0][0], caps[0][1]) if r["status"] == "ok" else r["status"])
@@ -572,7 +576,7 @@ def run(ctx, deep=False):
     scanner_correspondence(ctx, 60000 if thorough else 8000)
     env = Env()
     ctx.count("fake-dialects-available", len(env.fakes))
-    corr = {"cases": [], "impl": [], "req": []} if ctx.driver_ok() else None
+    corr = {"cases": [], "impl": [], "req": [], "guard": []} if ctx.driver_ok() else None
     n = 8000 if thorough else 400
     for i in range(n):
         cfg = {"weird_p": ctx.rng.choice([0.0, 0.5, 0.9]), "le_p": ctx.rng.choice([0.0, 0.12, 0.3]), "avoid_known": True}
@@ -589,6 +593,10 @@ def run(ctx, deep=False):
         out = ctx.driver(corr["req"])
         ctx.correspond("corr/c04:compiler+default-vs-Model.Bind", corr["cases"], corr["impl"], out)
         ctx.count("model-lines", len(out))
+        if corr["guard"]:
+            g = ctx.driver(corr["guard"])
+            ctx.count("theorem-guard-holds-on-real-pre-string", sum(1 for x in g if x == "safe"))
+            ctx.count("theorem-guard-fails-on-real-pre-string", sum(1 for x in g if x != "safe"))
     ctx.exhaustive = False
 
 
